@@ -1,6 +1,6 @@
 (* C17 — shuffles and moves only rearrange, keep frozen sites, stay self-consistent. *)
 From Coq Require Import QArith ZArith List Bool Arith Permutation.
-From LC Require Import Core.Residue Spec.Delta Model.Delta Model.Moves Proofs.Moves.
+From LC Require Import Core.Residue Spec.Delta Model.Delta Model.Moves Proofs.Moves Proofs.MovesFrame.
 Import ListNotations.
 
 (* any move, any outcome of its random choices accepted by the model: the child is a rearrangement of
@@ -39,6 +39,26 @@ Proof. exact (blockSwap_spec o bs i1 i2 c). Qed.
 Theorem C17_clustering o st sz sw c : MInv o -> clusterMove o st sz sw = Some c -> Permutation (mseq c) (mseq o) /\ MInv c.
 Proof. exact (clusterMove_spec o st sz sw c). Qed.
 Print Assumptions C17_clustering.
+
+(* what the two remaining moves leave alone: every position outside the two exchanged index ranges (block swap),
+   outside the cluster and the sampled swap positions (clustering), keeps its residue *)
+Theorem C17_block_swap_keeps_other_positions o bs i1 i2 c k : blockSwap o bs i1 i2 = Some c ->
+  (k < List.length (mseq o))%nat ->
+  (k < i1 \/ i1 + (bs - 1) <= k)%nat -> (k < i2 + bs - 1 \/ i2 + bs - 1 + (bs - 1) <= k)%nat ->
+  nth k (mseq c) Ala = nth k (mseq o) Ala.
+Proof. exact (blockSwap_untouched o bs i1 i2 c k). Qed.
+Print Assumptions C17_block_swap_keeps_other_positions.
+
+Theorem C17_clustering_keeps_other_positions o st sz sw c k : clusterMove o st sz sw = Some c ->
+  (k < List.length (mseq o))%nat -> (k < st \/ st + sz <= k)%nat -> ~ In k sw ->
+  nth k (mseq c) Ala = nth k (mseq o) Ala.
+Proof. exact (clusterMove_untouched o st sz sw c k). Qed.
+Print Assumptions C17_clustering_keeps_other_positions.
+
+Example C17_frame_nonvacuous :
+  exists c, blockSwap (mfresh [Glu; Lys; Gly; Ser; Asp; Arg; Gly; Ala]) 3 0 2 = Some c /\
+            nth 2 (mseq c) Ala = Gly /\ nth 0 (mseq c) Ala <> Glu.
+Proof. eexists. split; [vm_compute; reflexivity|]. split; [reflexivity | discriminate]. Qed.
 
 (* the frozen clause is false for block swap (and clustering): known finding D9 *)
 Theorem C17_block_swap_frozen_refuted : exists o bs i1 i2 c k,
